@@ -206,6 +206,16 @@ def regenerate_tables():
         with lake_lock():
             with open(path, "w") as f:
                 f.write(text)
+    # the scalar kernels translated from the Python source (tools/py2lean.py): Generated/Py<group>.lean
+    try:
+        import py2lean
+        with lake_lock():
+            st = py2lean.write(REPO, LEAN)
+        tables.update({k: (True if v == "translated" else None) for k, v in st.items()})
+        tables["__py2lean_status__"] = st
+    except Exception as e:
+        tables["py2lean"] = None
+        tables["__py2lean_status__"] = {"py2lean": f"unavailable: {type(e).__name__}: {e}"}
     return tables
 
 
@@ -442,8 +452,11 @@ def lean_phase(ctx, prop_modules, bridge_modules):
     """tables -> build -> audit. Fills ctx.obligations / ctx.bridge. Raises InfraError if the driver cannot be built."""
     try:
         tables = regenerate_tables()
+        pyst = tables.pop("__py2lean_status__", {})
         for k, v in tables.items():
             ctx.t_tie[k] = "extracted" if v is not None else "unavailable"
+        for k, v in pyst.items():
+            ctx.t_tie[k] = v
     except Exception as e:  # extractor failure is never an alarm
         ctx.t_tie["extractor"] = f"unavailable: {type(e).__name__}: {e}"
     rc, log = lake(["build", "hvsrdrv"])
